@@ -26,6 +26,7 @@ RULE = (
     'diff of a configuration with its deep copy is empty. Fiddle\'s own == is not used. '
     'Non-trivial: the pair differs in >=2 edit kinds including an aliasing edit or a callable swap.'
 )
+RULE += (' ' + 'Round 7: NaN leaves (a value that is not equal to itself; an untouched NaN is no change).')
 RULE += (' ' + 'Also generated: callables with **kwargs (kwf/kwg, identical signatures), tags on **kwargs arguments, and a callable swap assembled without update_callable.')
 ASSUMPTIONS = [
     'alignment heuristics admit many valid diffs; only the round trip is judged',
@@ -49,7 +50,7 @@ def strategy_(draw, tier, extra_kinds=True):
               'Bdc', 'Bempty', 'AFP', 'odict', 'dcinst', 'Bclash', 'ddict', 'kdict']
   if draw(st.floats(0, 1)) < 0.06:
     kinds = kinds + ['Bpos', 'Bpos']
-  old = draw(dags.dag(max_nodes=9, min_nodes=2, kinds=kinds, fns=_FNS, root_kinds=['B'],
+  old = draw(dags.dag(max_nodes=9, min_nodes=2, kinds=kinds, fns=_FNS, root_kinds=['B'], leaf_profile='plain_nan',
                       bts=('Config',), p_alias=0.7, tags=True, allow_copyof=draw(st.booleans())))
   mode = draw(st.sampled_from(['independent', 'edits', 'edits', 'edits', 'shared', 'moved_shared']))
   if mode == 'moved_shared':
@@ -74,7 +75,7 @@ def strategy_(draw, tier, extra_kinds=True):
         nd['bt'] = 'Partial'
     case['bt'] = 'Partial'
   if mode == 'independent':
-    new = draw(dags.dag(max_nodes=9, min_nodes=2, kinds=kinds, fns=_FNS, root_kinds=['B'],
+    new = draw(dags.dag(max_nodes=9, min_nodes=2, kinds=kinds, fns=_FNS, root_kinds=['B'], leaf_profile='plain_nan',
                         bts=('Config',), p_alias=0.7, tags=True))
     if case.get('bt') == 'Partial':
       for nd in new['nodes']:
